@@ -40,7 +40,10 @@ Definition two63 : Z := 9223372036854775808.
 Definition wrap64 (x : Z) : Z := (x + two63) mod (2 * two63) - two63.
 
 (* items: Ints, and Tuples (what Zip hands out) *)
-Inductive val := VInt (z : Z) | VTup (vs : list val).
+(* VObj id z: an Int object with a registered identity (the elements of the leaf containers and the shared
+   answer object of the flag predicates); VInt z: an Int whose identity is of no interest (a Range's own
+   counter, a fresh object made by a map function or a predicate) *)
+Inductive val := VInt (z : Z) | VTup (vs : list val) | VObj (id : Z) (z : Z).
 
 Record rules := mkRules {
   array_prev_incl : bool;     (* Array_Iter_Prev: curr <= Array_Item(a,0)   (pre-repair: <)          D9  *)
@@ -79,7 +82,7 @@ Inductive iterable :=
 | IRange (r : rng)
 | ISlice (u : iterable) (r : rng)
 | IZip (us : list iterable)
-| IFilter (p : val -> bool) (u : iterable)
+| IFilter (p : val -> option val) (u : iterable)   (* the predicate's answer object; None = NULL = reject *)
 | IMap (f : val -> val) (u : iterable).
 
 Inductive dir := Fwd | Bwd.
@@ -374,15 +377,18 @@ Section Model.
       end.
 
   (* while (true) { if (curr is Terminal or call_with(func, curr)) return curr; curr = step(curr); } *)
-  Definition filter_loop (stepf : cur -> outcome (option cur)) (valf : cur -> outcome val) (p : val -> bool)
+  (* the answer of the predicate only decides; what is handed out is curr, the accepted element itself *)
+  Definition filter_loop (stepf : cur -> outcome (option cur)) (valf : cur -> outcome val) (p : val -> option val)
     : nat -> option cur -> outcome (option cur) :=
     fix go (k : nat) (c : option cur) : outcome (option cur) :=
       match c with
       | None => OVal None
       | Some c' =>
         do v <- valf c';
-        if p v then OVal (Some c')
-        else match k with O => OFuel | S k' => do c2 <- stepf c'; go k' c2 end
+        match p v with
+        | Some _ => OVal (Some c')
+        | None => match k with O => OFuel | S k' => do c2 <- stepf c'; go k' c2 end
+        end
       end.
 
   Definition map_wrap (f : val -> val) (valf : cur -> outcome val) (c : option cur) : outcome (option cur) :=
@@ -676,16 +682,24 @@ Fixpoint hist_run (k : skind) (xs : list Z) (ops : list hop) (raised : nat) : li
 Fixpoint vkey (v : val) : Z :=
   match v with
   | VInt z => z
+  | VObj _ z => z
   | VTup vs => (fix go (l : list val) : Z := match l with [] => 0 | x :: r => wrap64 (vkey x + go r) end) vs
   end.
-Definition pred_of (id : nat) (v : val) : bool :=
+(* predicates 0..5 answer "accept" with their own argument; 6..8 with a DIFFERENT non-NULL object (the contract
+   of Filter is only: non-NULL = accept): the shared flag object, a fresh box, a fresh copy with the same value *)
+Definition flag_obj : val := VObj (-1) 777.
+Definition pred_of (id : nat) (v : val) : option val :=
+  let self (b : bool) := if b then Some v else None in
   match id with
-  | 0%nat => true
-  | 1%nat => false
-  | 2%nat => Z.rem (vkey v) 2 =? 0
-  | 3%nat => 0 <? vkey v
-  | 4%nat => Z.rem (vkey v) 3 =? 0
-  | _ => vkey v <? 3
+  | 0%nat => Some v
+  | 1%nat => None
+  | 2%nat => self (Z.rem (vkey v) 2 =? 0)
+  | 3%nat => self (0 <? vkey v)
+  | 4%nat => self (Z.rem (vkey v) 3 =? 0)
+  | 5%nat => self (vkey v <? 3)
+  | 6%nat => if Z.rem (vkey v) 2 =? 0 then Some flag_obj else None
+  | 7%nat => if 0 <? vkey v then Some (VTup [v]) else None
+  | _ => if Z.rem (vkey v) 3 =? 0 then Some (VInt (vkey v)) else None
   end.
 Definition fun_of (id : nat) (v : val) : val :=
   match id with
@@ -693,5 +707,7 @@ Definition fun_of (id : nat) (v : val) : val :=
   | 1%nat => VInt (wrap64 (vkey v + 100))
   | 2%nat => VInt (wrap64 (- vkey v))
   | 3%nat => VInt (wrap64 (vkey v * vkey v))
-  | _ => VTup [v]
+  | 4%nat => VTup [v]
+  | 5%nat => flag_obj                 (* the same shared object for every item *)
+  | _ => VInt (vkey v)                (* a fresh copy: same value, another object *)
   end.
